@@ -60,6 +60,15 @@ claim("C12", "path-sensitive abstract interpretation (P-path) of the step gorout
       "declared outputs, no stage finished twice or both finished and failed, exactly one completion with state finished (C12.R1-R4); closers mark closed first (R5); input hand-over once-guarded and non-blocking (R6); "
       "no send after close (R7); stage/state writes under the step lock (R8). Real interleavings with the ATP client and State()/CurrentStage() at arbitrary instants are not decided.", NOTE)
 
+claim("C04", "path-sensitive exploration (P-path) of the step goroutines + who-may-call, single-producer and must-pass-through rules",
+      "Decides that plugin code has one call site inside the goroutine startStage launches, that every explored launching path received a true enable input and the run input first and examined the step context afterwards, "
+      "that input channels have a single producer, that a stop condition cancels the step, that failed nodes get no input and that disabled steps report disabled.output (C04.R0-R6). "
+      "dgraph's unresolvability propagation and timing are not decided.", NOTE)
+claim("C06", "cancellability classification of every blocking operation + path-sensitive exploration of the running stage + dominance rules on Execute and the interrupt handler",
+      "Decides that every blocking channel operation of the run path has a context/timer case or cannot block by construction, that every explored context-done path of the running stage signals or force-closes and ends bounded, "
+      "that closers cancel first, that Execute starts terminate-all and bounds its second wait by a constant timeout, that the interrupt handler cancels the run, that deployments/sub-runs get the step context (C06.R1-R6). "
+      "The numeric bound and plugin cooperation are not decided.", NOTE)
+
 ALL = ["C%02d" % i for i in range(1, 21)]
 for pid in ALL:
     if pid not in P:
